@@ -10,6 +10,7 @@
 package vrf
 
 import (
+	"bytes"
 	"crypto/sha512"
 	"math/big"
 
@@ -81,18 +82,35 @@ func gammaToHash(gamma ed.Point) [64]byte {
 
 // Prove is ECVRF_prove (section 5.1). It returns pi_string and the
 // try-and-increment counter at which encode_to_curve succeeded.
-func Prove(seed []byte, alpha []byte) (pi [80]byte, ctr int) {
+func Prove(seed []byte, alpha []byte) (pi [80]byte, ctr int) { return ProveWithSalt(seed, nil, alpha) }
+
+// ProveWithSalt is Prove with another encode_to_curve salt than the public key (nil = the public key): what a key
+// holder would compute for a verifier that (wrongly) hashes a longer or otherwise different public-key string.
+func ProveWithSalt(seed, salt, alpha []byte) (pi [80]byte, ctr int) {
 	x, prefix := ed.ExpandSeed(seed) // x = secret scalar, prefix = hashed_sk_string[32..63]
 	B := ed.Base()
 	Y := B.ScalarMult(x)
 	pk := Y.Encode()
-	H, ctr := EncodeToCurveTAI(pk[:], alpha)
+	if salt == nil {
+		salt = pk[:]
+	}
+	H, ctr := EncodeToCurveTAI(salt, alpha)
 	hString := H.Encode()
 	gamma := H.ScalarMult(x)
 	// nonce generation, section 5.4.2.2: k = SHA-512(hashed_sk_string[32..63] || h_string) mod q
 	ks := hash(prefix[:], hString[:])
 	k := ed.ReduceL(ed.ScalarFromBytesLE(ks[:]))
 	c := challenge(Y, H, gamma, B.ScalarMult(k), H.ScalarMult(k))
+	if len(salt) != 32 || !bytes.Equal(salt, pk[:]) {
+		// the misled verifier also puts the string it was given into the challenge
+		in := append([]byte{suite, 0x02}, salt...)
+		for _, p := range []ed.Point{H, gamma, B.ScalarMult(k), H.ScalarMult(k)} {
+			e := p.Encode()
+			in = append(in, e[:]...)
+		}
+		cs := hash(in, []byte{0x00})
+		c = ed.ScalarFromBytesLE(cs[:cLen])
+	}
 	s := ed.ReduceL(new(big.Int).Add(k, new(big.Int).Mul(c, x)))
 	ge, cb, sb := gamma.Encode(), ed.ScalarToBytesLE32(c), ed.ScalarToBytesLE32(s)
 	copy(pi[:ptLen], ge[:])
